@@ -200,7 +200,7 @@ def run(ctx):
                 ctx.add('spaces_skipped_for_time')
                 continue
             space_sweep(ctx, types, colors, shape, view, i)
-        trajectories(ctx, ctx.pick(1, 4), ctx.pick(80, 250))
+        trajectories(ctx, ctx.pick(1, 16), ctx.pick(80, 400))
 
 
 def replay(ctx, kind, payload):
